@@ -224,10 +224,16 @@ pub fn rich_generic_devs(lifetime_ok: bool) -> Vec<Dev> {
 /// module level. The meaning of the definition is unchanged; generated code that relies on module-level paths to reach the
 /// enum or its helper items (an inner `mod`, `self::`/`super::` paths) stops compiling.
 pub fn context_devs() -> Vec<Dev> {
-    vec![dev("context: enum declared inside a fn body", &["ctx"], |s| {
-        s.syntax.push("in-fn".into());
-        true
-    })]
+    vec![
+        dev("context: enum declared inside a fn body", &["ctx"], |s| {
+            s.syntax.push("in-fn".into());
+            true
+        }),
+        dev("context: a `type Result<T> = ..` alias is in scope where the enum is declared", &["ctx"], |s| {
+            s.syntax.push("result-alias".into());
+            true
+        }),
+    ]
 }
 
 /// applied by `finish`: move every item that precedes `pub fn run(..)` into its body
@@ -240,4 +246,42 @@ pub fn into_fn_body(source: &str) -> String {
         }
         None => source.to_string(),
     }
+}
+
+/// Variant shapes that are legal but rare: empty field lists `V()` / `V {}` (not unit variants syntactically), and a second
+/// variant whose identifier differs from the first one's only in letter case (`Kk` / `KK`).
+/// `case_twin`: whether two such identifiers are inside the domain of the derive under test.
+pub fn rare_shape_devs(n: usize, case_twin: bool) -> Vec<Dev> {
+    use crate::spec::Kind;
+    let mut d = Vec::new();
+    for i in 0..n {
+        d.push(dev(format!("v{}.kind=tuple0 `V()`", i), &[&format!("kind{}", i)], move |s| {
+            if i >= s.variants.len() || s.variants[i].default || s.variants[i].transparent || s.variants[i].default_with {
+                return false;
+            }
+            s.variants[i].kind = Kind::Tuple(vec![]);
+            true
+        }));
+        d.push(dev(format!("v{}.kind=named0 `V {{}}`", i), &[&format!("kind{}", i)], move |s| {
+            if i >= s.variants.len() || s.variants[i].default || s.variants[i].transparent || s.variants[i].default_with {
+                return false;
+            }
+            s.variants[i].kind = Kind::Named(vec![]);
+            true
+        }));
+    }
+    if case_twin && n >= 2 {
+        d.push(dev("v1.ident = v0.ident in upper case (identifiers that differ only in letter case)", &["id1"], |s| {
+            if s.variants.len() < 2 {
+                return false;
+            }
+            let up = crate::spec::unraw(&s.variants[0].ident).to_uppercase();
+            if s.variants.iter().any(|v| v.ident == up) {
+                return false;
+            }
+            s.variants[1].ident = up;
+            true
+        }));
+    }
+    d
 }
